@@ -299,6 +299,9 @@ S["async_1_2_3"] = dict(
     conns=[dict(src="A", dst="M1", sattr="po", dattr="mi", **{"async": True}),
            dict(src="A", dst="M2", sattr="po", dattr="mi", **{"async": True}),
            dict(src="A", dst="M3", sattr="po", dattr="mi", **{"async": True})])
+# a triggering connection that is also declared with async_requests
+S["async_trigger"] = dict(until=5, sims=[T("A", 2), H("M"), T("X")],
+                          conns=[dict(C("A", "M", "po", "ti"), **{"async": True})])
 S["async_two_writers"] = dict(
     until=3,
     sims=[T("A"),
